@@ -594,6 +594,13 @@ func (c *Compiler) compileSwitch(node *ast.Switch) error {
 
 	jumpDefaultPos := c.emit(op.JumpForward, Placeholder)
 
+	// The switch value stays on the stack underneath the case blocks, so a
+	// break or continue inside a case must pop it before jumping out.
+	if loop := c.currentLoop(); loop != nil {
+		loop.switchDepth++
+		defer func() { loop.switchDepth-- }()
+	}
+
 	// Update case jump positions and compile case blocks
 	var offset int
 	var endBlockPosits []int
@@ -1247,6 +1254,10 @@ func (c *Compiler) compileControl(node *ast.Control) error {
 			return c.formatError("invalid break statement outside of a loop", node.Token().StartPosition)
 		}
 		return c.formatError("invalid continue statement outside of a loop", node.Token().StartPosition)
+	}
+	// Pop the values of any switch statements we are jumping out of
+	for i := 0; i < loop.switchDepth; i++ {
+		c.emit(op.PopTop)
 	}
 	if literal == "break" {
 		// When breaking from a for-range loop, we need to pop the iterator from the stack
